@@ -65,6 +65,19 @@ func (f *frame) evalClause(env *specEnv, cl *Clause) Term {
 	return v.T
 }
 
+// assumeClause assumes a clause conjunct by conjunct (macros expanded first), so that every
+// assumed formula is either quantifier free or of the shape guards => forall — the shapes the
+// instantiation-based prover can use.
+func (f *frame) assumeClause(env *specEnv, cl *Clause, guard Term) {
+	for _, p := range splitExpr(expandMacros(cl.E)) {
+		v := env.eval(p)
+		if v.T.Sort != SBool {
+			specFail("%s:%d: clause is not boolean: %s", cl.File, cl.Line, cl.Text)
+		}
+		f.c.assume(implies(guard, v.T))
+	}
+}
+
 func (f *frame) evalSpec(env *specEnv, e Expr) SVal {
 	return env.eval(e)
 }
@@ -90,7 +103,27 @@ func findField(st *types.Struct, name string) int {
 	return -1
 }
 
+// eval evaluates a spec expression; long closed integer terms are given a name (define-fun) so
+// that formulas — and the index terms the instantiation prover collects — stay small.
 func (env *specEnv) eval(e Expr) SVal {
+	v := env.eval0(e)
+	c := env.c
+	if v.T.Sort == SInt && len(v.T.S) > 150 && !strings.Contains(v.T.S, "|q ") && !strings.Contains(v.T.S, "|sp ") {
+		if c.named == nil {
+			c.named = map[string]Term{}
+		}
+		if t, ok := c.named[v.T.S]; ok {
+			v.T = t
+		} else {
+			t := c.name("sx", v.T)
+			c.named[v.T.S] = t
+			v.T = t
+		}
+	}
+	return v
+}
+
+func (env *specEnv) eval0(e Expr) SVal {
 	c := env.c
 	switch x := e.(type) {
 	case *EInt:
@@ -451,6 +484,9 @@ func (env *specEnv) evalCall(x *ECall) SVal {
 		return env.eval(x.Args[i])
 	}
 	switch x.Fun {
+	case "nosplit":
+		// identity; tells the clause splitter to keep the argument as one obligation
+		return arg(0)
 	case "old":
 		n := env.child()
 		n.heap = env.old
@@ -581,6 +617,21 @@ func (env *specEnv) evalCall(x *ECall) SVal {
 		m, k := arg(0), arg(1)
 		dom, _, _, _ := env.f.mapArrays(m.GoT, env.heap)
 		return SVal{T: and(not(eq(m.T, tNil)), sel(sel(dom, m.T), k.T))}
+	case "addrof":
+		// the reference of an address-taken local variable (e.g. a local array that is sliced)
+		id, ok := x.Args[0].(*EIdent)
+		if !ok {
+			specFail("addrof wants the name of a local variable")
+		}
+		a, ok := env.f.debugAddr[id.Name]
+		if !ok {
+			specFail("addrof(%s): not an address-taken local", id.Name)
+		}
+		t, ok := env.f.vals[a].(Term)
+		if !ok {
+			specFail("addrof(%s): the variable has no reference value here", id.Name)
+		}
+		return SVal{T: t}
 	case "fresh":
 		// allocated after function entry
 		v := arg(0)
@@ -631,6 +682,16 @@ func (env *specEnv) evalCall(x *ECall) SVal {
 
 func (env *specEnv) applySpecFunc(sf *SpecFunc, args []SVal) SVal {
 	c := env.c
+	if sf.Macro {
+		if len(args) != len(sf.Params) {
+			specFail("spec macro %s: want %d arguments, got %d", sf.Name, len(sf.Params), len(args))
+		}
+		sub := env.child()
+		for i, p := range sf.Params {
+			sub.vars[p.Name] = args[i]
+		}
+		return sub.eval(sf.Body)
+	}
 	c.eng.declareSpecFunc(c, env, sf)
 	if len(args) != len(sf.Params) {
 		specFail("spec func %s: want %d arguments, got %d", sf.Name, len(sf.Params), len(args))
